@@ -7,6 +7,7 @@ import (
 	"encoding/json"
 	"fmt"
 	"os"
+	"runtime"
 	"strconv"
 	"strings"
 	"sync"
@@ -68,6 +69,9 @@ func TestSim(t *testing.T) {
 		os.Exit(70)
 	}
 	inc := &p.Incs[incIdx]
+	if p.Knobs.Sched {
+		go spinWatchdog()
+	}
 	synctest.Test(t, func(t *testing.T) {
 		runInc(p, inc)
 	})
@@ -92,7 +96,7 @@ func runInc(p *plan.Plan, inc *plan.Incarnation) {
 	simfs.Init([]string{"."}, faults, os.Getenv("SIM_FSTRACE") != "" || p.Params["fs_trace"] == true, police)
 	simfs.OnCrash = func(k int) {
 		saveClock()
-		jwrite(&plan.Entry{Idx: "crash", Kind: "crash", Data: mustJSON(map[string]any{"k": k})})
+		jwrite(&plan.Entry{Idx: "crash", Kind: "crash", Data: mustJSON(map[string]any{"k": k, "op": simfs.LastOp()})})
 	}
 	k := p.Knobs
 	if k.StatfsFreePct > 0 {
@@ -118,6 +122,13 @@ func runInc(p *plan.Plan, inc *plan.Incarnation) {
 			mode = "lite"
 		}
 		err := world.Boot(mode, &p.Knobs)
+		if err == nil {
+			// start-up recovery runs in background goroutines (initSyncSegMetaForAllIds, metadata
+			// refresh): clients arrive two simulated seconds after the listener is up
+			simrt.SetOpBudget(10 * time.Minute)
+			simrt.Sleep(2 * time.Second)
+			simrt.ClearOpBudget()
+		}
 		e := &plan.Entry{Idx: "boot", Kind: "boot"}
 		if err != nil {
 			e.Err = err.Error()
@@ -221,4 +232,43 @@ func runPar(idx string, op *plan.Op) {
 	wg.Wait()
 	simrt.ClearOpBudget()
 	jwrite(&plan.Entry{Idx: idx, Kind: "par"})
+}
+
+// spinWatchdog runs outside the bubble on the real clock. Every step of the simulation takes
+// milliseconds of wall time; if no scheduling decision is taken for spinLimit seconds, the baton holder is
+// executing without ever reaching a yield point (an unbounded loop in the system under test): report a
+// hang with the stack of the running goroutine instead of waiting for the driver's wall-clock watchdog.
+const spinLimit = 25
+
+func spinWatchdog() {
+	last := simrt.Seq()
+	idle := 0
+	for {
+		time.Sleep(time.Second)
+		cur := simrt.Seq()
+		if cur != last {
+			last, idle = cur, 0
+			continue
+		}
+		idle++
+		if idle < spinLimit {
+			continue
+		}
+		buf := make([]byte, 1<<20)
+		n := runtime.Stack(buf, true)
+		dump := "no scheduling decision for 25 s of wall time: the running task never reaches a yield point (spin)\n"
+		for _, g := range strings.Split(string(buf[:n]), "\n\n") {
+			if strings.Contains(g, "[running") || strings.Contains(g, "[runnable") {
+				if !strings.Contains(g, "spinWatchdog") {
+					dump += g + "\n\n"
+				}
+			}
+		}
+		if len(dump) > 6000 {
+			dump = dump[:6000]
+		}
+		jwrite(&plan.Entry{Idx: "hang", Kind: "hang", Err: dump})
+		fmt.Fprintf(os.Stderr, "SIM-HANG spin\n%s\n", dump)
+		os.Exit(78)
+	}
 }
